@@ -1,6 +1,10 @@
 package hsim
 
 import (
+	"encoding/json"
+	"fmt"
+	"os"
+	"strconv"
 	"testing"
 	"testing/synctest"
 	"time"
@@ -41,4 +45,22 @@ func TestSmoke(t *testing.T) {
 		t.Logf("gauges %+v -> %+v", w.gauge0, readGauges())
 		w.Close()
 	})
+}
+
+// TestGenDump prints the generated scenario of HSIM_PROP for seed HSIM_DUMP_SEED (debugging aid).
+func TestGenDump(t *testing.T) {
+	sd := os.Getenv("HSIM_DUMP_SEED")
+	if sd == "" {
+		t.Skip("HSIM_DUMP_SEED not set")
+	}
+	seed, _ := strconv.ParseUint(sd, 10, 64)
+	spec := props[os.Getenv("HSIM_PROP")]
+	if spec == nil || spec.Gen == nil {
+		t.Skip("no generator")
+	}
+	sc := spec.Gen(seed, "quick")
+	for i, st := range sc.Steps {
+		b, _ := json.Marshal(st)
+		fmt.Println(i, string(b))
+	}
 }
